@@ -242,12 +242,15 @@ pub fn run(args: &[String]) -> ! {
         }
     }
     let _ = std::fs::remove_dir_all(&dir);
+    for i in [0, seqs.len() / 2, seqs.len().saturating_sub(1)] {
+        if let Some(sq) = seqs.get(i) {
+            ctx.sample(json!({"operations": sq.iter().map(|o| NAMES[*o]).collect::<Vec<_>>()}));
+        }
+    }
     ctx.set("evaluations", evals);
     ctx.set("distinct_nontrivial", bumped);
-    ctx.set("sequences", evals);
     ctx.set("depth", depth as u64);
     ctx.set("committed_transactions_checked", commits);
-    ctx.set("commits_whose_start_time_was_not_after_the_last_committed_identifier", bumped);
     ctx.set("restarts", restarts);
     ctx.set("rule", "all sequences of the stated depth over 8 steps (write at a time far in the past / the same time / one second later, committed or abandoned; restart on the same files at a time far in the past / later); oracle after every step. Non-trivial = commits whose start time was not after the greatest committed identifier, i.e. where the server had to move the identifier forward itself");
     ctx.set("exhaustive", true);
